@@ -15,6 +15,12 @@ fn verif_dir() -> String {
 
 /// Returns the crashing inputs (bytes). Fuzzing infrastructure problems make the run inconclusive.
 pub fn campaign(ctx: &mut Ctx, target: &str, jobs: usize, runs_per_job: u64, max_len: usize) -> Vec<Vec<u8>> {
+    campaign_sub(ctx, target, None, jobs, runs_per_job, max_len)
+}
+
+/// `sub` selects the sub-check a multi-purpose target serves (passed as VERIF_FUZZ_SUB); such
+/// targets start from a corpus of seeded random byte strings instead of files under fuzz/seeds.
+pub fn campaign_sub(ctx: &mut Ctx, target: &str, sub: Option<&str>, jobs: usize, runs_per_job: u64, max_len: usize) -> Vec<Vec<u8>> {
     let vd = verif_dir();
     let fuzz_dir = format!("{vd}/fuzz");
     let t0 = std::time::Instant::now();
@@ -41,7 +47,8 @@ pub fn campaign(ctx: &mut Ctx, target: &str, jobs: usize, runs_per_job: u64, max
         }
     }
     let bin = format!("{fuzz_dir}/target/x86_64-unknown-linux-gnu/release/{target}");
-    let work = format!("{fuzz_dir}/corpus/{target}-{}-{}", ctx.property, ctx.seed);
+    let tag = sub.map_or_else(|| target.to_string(), |s| format!("{target}_{s}"));
+    let work = format!("{fuzz_dir}/corpus/{tag}-{}-{}", ctx.property, ctx.seed);
     let _ = std::fs::remove_dir_all(&work);
     let mut children = vec![];
     for j in 0..jobs {
@@ -52,6 +59,21 @@ pub fn campaign(ctx: &mut Ctx, target: &str, jobs: usize, runs_per_job: u64, max
         if let Ok(rd) = std::fs::read_dir(format!("{fuzz_dir}/seeds/{target}")) {
             for f in rd.flatten() {
                 let _ = std::fs::copy(f.path(), format!("{corpus}/{}", f.file_name().to_string_lossy()));
+            }
+        }
+        if sub.is_some() {
+            // random starting inputs of several lengths (the bytes are a random stream for a proptest strategy)
+            for (k, len) in [16usize, 64, 256, 1024, 3000].into_iter().enumerate() {
+                let mut x = derive_seed(ctx.seed, &ctx.property, &tag, (j * 8 + k) as u64) | 1;
+                let bytes: Vec<u8> = (0..len)
+                    .map(|_| {
+                        x ^= x << 13;
+                        x ^= x >> 7;
+                        x ^= x << 17;
+                        (x >> 24) as u8
+                    })
+                    .collect();
+                let _ = std::fs::write(format!("{corpus}/r{k}"), bytes);
             }
         }
         // libFuzzer's -seed=0 means random: remap
@@ -67,6 +89,7 @@ pub fn campaign(ctx: &mut Ctx, target: &str, jobs: usize, runs_per_job: u64, max
                 "-print_final_stats=1".to_string(),
             ])
             .env("VERIF_DIR", &vd)
+            .env("VERIF_FUZZ_SUB", sub.unwrap_or(""))
             .stdout(Stdio::null())
             // a piped stderr would block the fuzzer as soon as the pipe buffer is full
             .stderr(std::fs::File::create(format!("{work}/log{j}.txt")).map_or_else(|_| Stdio::null(), Stdio::from))
@@ -100,9 +123,9 @@ pub fn campaign(ctx: &mut Ctx, target: &str, jobs: usize, runs_per_job: u64, max
             summaries.push(format!("job {j}: {}", err.lines().find(|l| l.contains("FUZZ-VIOLATION") || l.contains("ERROR")).unwrap_or("stopped")));
         }
     }
-    ctx.count(&format!("fuzz_{target}"), execs);
+    ctx.count(&format!("fuzz_{tag}"), execs);
     ctx.extra.insert(
-        format!("fuzz_{target}"),
+        format!("fuzz_{tag}"),
         json!({"engine": "libFuzzer via cargo-fuzz (nightly)", "jobs": jobs, "runs_per_job": runs_per_job, "executions": execs, "crashing_inputs": crashes.len(), "stopped_jobs": summaries, "wall_s": t0.elapsed().as_secs_f64(), "note": "-seed pins a campaign only approximately; the reproducible unit is the decoded crashing input"}),
     );
     let _ = std::fs::remove_dir_all(&work);
